@@ -4,6 +4,8 @@ import (
 	"fmt"
 	"go/ast"
 	"go/types"
+
+	"golang.org/x/tools/go/types/typeutil"
 )
 
 const (
@@ -30,6 +32,8 @@ func runC01(c *Ctx) {
 	spdxFlow(c, "C01")
 	spdxLoops(c, "C01")
 	readerValueUntransformed(c, "reader-value-untransformed", pkgFilter(c.reachDecls("reader-value-untransformed", spdxUnser), "unserializers."))
+	firstActorWritten(c)
+	driverStateRule(c, "driver-keeps-no-state", []string{spdxSer, "serializers.(*SPDX23).Render", spdxUnser}, newOrigins(c.P))
 }
 
 // spdxTables: C01-D1, D2.
@@ -283,6 +287,47 @@ func spdxPurposes(c *Ctx, wr, rd []*declInfo) {
 						if out := c.apply(f, lbl); len(out) == 1 && out[0].k == vConst {
 							rrows = append(rrows, switchRow{keys: []value{lbl}, val: value{k: vList, list: []value{out[0]}}, pos: e.Pos()})
 							rpos = c.P.Pos(sw.Pos())
+						}
+					}
+				}
+			}
+		}
+	}
+	if len(wrows) == 0 {
+		// … and so may the writer's: a converter sbom.Purpose → string whose result is stored into
+		// PrimaryPackagePurpose, folded on the constants of its own switch
+		for _, f := range converters(wr, sigPred(isNamed("pkg/sbom", "Purpose"), isString)) {
+			fd, pk := c.P.FuncDecl(objName(f))
+			if fd == nil || fd.Body == nil {
+				continue
+			}
+			stored := false
+			for _, d := range wr {
+				for _, fi := range fieldInits(d.pkg, d.fd.Body) {
+					if fi.field.Name() != "PrimaryPackagePurpose" {
+						continue
+					}
+					if ce, isCall := fi.value.(*ast.CallExpr); isCall {
+						if g, _ := typeutil.Callee(d.pkg.TypesInfo, ce).(*types.Func); g == f {
+							stored = true
+						}
+					}
+				}
+			}
+			if !stored {
+				continue
+			}
+			for _, sw := range findSwitches(fd.Body) {
+				for _, cc := range sw.Body.List {
+					cl := cc.(*ast.CaseClause)
+					for _, e := range cl.List {
+						k, ok := constOf(pk, e)
+						if !ok {
+							continue
+						}
+						if out := c.apply(f, k); len(out) == 1 && out[0].k == vConst {
+							wrows = append(wrows, switchRow{keys: []value{k}, val: out[0], pos: e.Pos()})
+							wpos = c.P.Pos(sw.Pos())
 						}
 					}
 				}
